@@ -66,10 +66,14 @@ def gen_cases(spec):
             else:
                 fate = ("exit", rng.choice(CODES) if rng.random() < 0.6 else rng.randint(0, 255))
             kids.append((fate, rng.choice(["before", "after"]), rng.choice(APIS)))
-        yield {"kids": kids, "preinit": rng.random() < 0.5, "interleave": rng.random() < 0.5}
+        yield {"kids": kids, "preinit": rng.random() < 0.5, "interleave": rng.random() < 0.5,
+               "coalesce": size > 1 and rng.random() < 0.5}
 
 
 def directed_cases():
+    # several children die while SIGCHLD is blocked: exactly one (coalesced) SIGCHLD announces all of them
+    yield {"kids": [(("signal", 9), "before", "callback"), (("signal", 15), "before", "wait_noraise"),
+                    (("exit", 3), "before", "callback")], "preinit": True, "interleave": False, "coalesce": True}
     yield {"kids": [(("exit", 0), "before", "callback")], "preinit": False, "interleave": False}
     yield {"kids": [(("signal", 9), "after", "wait_raise")], "preinit": False, "interleave": False}
     yield {"kids": [(("exit", 3), "after", "callback"), (("signal", 15), "before", "wait_noraise"),
@@ -157,15 +161,25 @@ async def run_batch(case, ctx):
                 k.register(ctx)
             if k.timing == "after" and not case["interleave"]:
                 k.register(ctx)
-        # release every blocked child in the same instant
+        # release every blocked child in the same instant; with "coalesce" SIGCHLD is blocked until all of them
+        # are dead, so the kernel delivers a single pending SIGCHLD for the whole batch (standard signals do
+        # not queue) - the schedule in which "one SIGCHLD = one child" reasoning loses exits
+        coalesce = bool(case.get("coalesce"))
+        if coalesce:
+            signal.pthread_sigmask(signal.SIG_BLOCK, {signal.SIGCHLD})
+            ctx.count("coalesced_sigchld_batches")
         for k in kids:
             if k.timing == "before":
                 k.sp.stdin.close()
         # barrier: every child is dead (zombie or reaped). No await happened since the release, so
         # tornado cannot have reaped a "before" child yet and the kernel still tells us its fate.
-        for k in kids:
-            if k.timing == "before":
-                k.truth = kernel_fate(k.sp.pid)
+        try:
+            for k in kids:
+                if k.timing == "before":
+                    k.truth = kernel_fate(k.sp.pid)
+        finally:
+            if coalesce:
+                signal.pthread_sigmask(signal.SIG_UNBLOCK, {signal.SIGCHLD})
         used = await turns(kids)
         ctx.count("loop_turns_used", used)
         judge(kids, case, ctx)
